@@ -21,9 +21,12 @@ for (f, q, props, why) in PINNED:
 # ordinal and must hold at the loop head)
 from specs.table import UNITS
 shapes = {}
+bindings = []
 for u in UNITS:
     r = subprocess.run([ROOT + "/check", "--gen", u, "/repo"], stdout=subprocess.PIPE, stderr=subprocess.PIPE, text=True, env=dict(__import__("os").environ, VERIF_GEN="/tmp/gen_pin"))
     m = json.load(open("/tmp/gen_pin/%s.map.json" % u))
     shapes[u] = {x.split("\t")[0]: [h for h in x.split("\t")[1].split(" || ") if h] for x in m.get("shapes", [])}
+    bindings.extend(m.get("bindings", []))
+open(ROOT + "/specs/bindings.txt", "w").write("\n".join(sorted(set(bindings))) + "\n")
 json.dump({"commit": subprocess.run(["git", "-C", "/repo", "rev-parse", "HEAD"], stdout=subprocess.PIPE, text=True).stdout.strip(), "pins": pins, "loops": shapes}, open(ROOT + "/specs/pins.json", "w"), indent=1)
 print("pinned", len(pins), "functions")
